@@ -25,6 +25,7 @@ import (
 	ocispec "github.com/opencontainers/image-spec/specs-go/v1"
 	"oras.land/oras-go/v2/errdef"
 	"oras.land/oras-go/v2/internal/container/set"
+	"oras.land/oras-go/v2/internal/verifhook"
 )
 
 // Memory is a memory based resolver.
@@ -44,6 +45,7 @@ func NewMemory() *Memory {
 
 // Resolve resolves a reference to a descriptor.
 func (m *Memory) Resolve(_ context.Context, reference string) (ocispec.Descriptor, error) {
+	verifhook.Point("resolver.Resolve")
 	m.lock.RLock()
 	defer m.lock.RUnlock()
 
@@ -56,6 +58,7 @@ func (m *Memory) Resolve(_ context.Context, reference string) (ocispec.Descripto
 
 // Tag tags a descriptor with a reference string.
 func (m *Memory) Tag(_ context.Context, desc ocispec.Descriptor, reference string) error {
+	verifhook.Point("resolver.Tag")
 	m.lock.Lock()
 	defer m.lock.Unlock()
 
@@ -80,6 +83,7 @@ func (m *Memory) Tag(_ context.Context, desc ocispec.Descriptor, reference strin
 
 // Untag removes a reference from index map.
 func (m *Memory) Untag(reference string) {
+	verifhook.Point("resolver.Untag")
 	m.lock.Lock()
 	defer m.lock.Unlock()
 
